@@ -473,7 +473,7 @@ def gen_inputs(tier, rng):
         mask = rand_mask(h, w, rng) if j % 2 else falses(h, w)
         if all(all(r) for r in mask): mask[0][0] = False
         noise = [[float(rng.choice([0.5, 1.0, 2.0, 4.0, 0.25])) for _ in range(w)] for _ in range(h)]
-        fs0 = E if j % 3 else {"dirs": [[1]], "files": [[[1, 11], [old_hdu(2, 1)]]]}
+        fs0 = E if j % 3 else {"dirs": [[1]], "files": [[[1, 11], [old_hdu(2, 1)]], [[12], [old_hdu(2, 2)]]]}   # psf / noise-map targets exist
         yield {"op": "imaging", "flip": j % 4 < 2, "mask": mask, "data": content2(h, w, rng), "noise": noise, "psf": psfs[j % 4], "sc": [0.5, 0.25] if j % 5 == 0 else [0.5, 0.5],
                "fs0": fs0, "pd": [1, 10], "pp": [1, 11] if j % 3 == 0 else [2, 11], "pn": [12], "abs": j % 2 == 0, "ow": j % 6 == 0, "chk": j % 2 == 0}
     # 7. random larger cases with special magnitudes
